@@ -361,3 +361,10 @@ def c14_dtype(ctx, case):
          "input is not modified")
 def c14_layout(ctx, case):
     _dt.layout_body(ctx, case, _dt.TABLES["C14"])
+
+
+@sub("C14.single", strategy=_dt.single_case(sorted(_dt.TABLES["C14"])), quick=200, thorough=4000,
+     doc="float32 / complex64 samples are taken for what they are: same result (to 1e-3 of the largest value) as the same values "
+         "in double precision")
+def c14_single(ctx, case):
+    _dt.single_body(ctx, case, _dt.TABLES["C14"])
